@@ -25,6 +25,7 @@ def projects(draw: Any, cycles: bool = False, star_consumers: bool = False) -> D
         nid[0] += 1
         return nid[0]
     impl = []
+    attrchain = draw(st.integers(0, 2)) == 0   # the first class sets self.t, every class below it overrides t in its body
     all_defs: List[Tuple[str, Dict[str, Any]]] = []
     for mod in draw(st.sampled_from([['_a'], ['_a', '_b'], ['_a', '_b', 'zimpl']])):
         defs = []
@@ -32,14 +33,17 @@ def projects(draw: Any, cycles: bool = False, star_consumers: bool = False) -> D
             kind = draw(st.sampled_from(['class', 'class', 'func']))
             name = ('K%d' if kind == 'class' else 'f%d') % new_id()
             d = {'name': name, 'id': nid[0], 'kind': kind, 'bases': [], 'members': ['m'] if kind == 'class' and draw(st.integers(0, 3)) > 0 else [],
-                 'nested': bool(kind == 'class' and draw(st.integers(0, 2)) == 0)}
+                 'nested': bool(kind == 'class' and draw(st.integers(0, 2)) == 0),
+                 # an attribute 't' set on the instance in __init__ ('ivar') or in the class body ('cvar'): a class variable that
+                 # overrides an inherited instance variable is documented as an instance variable, whatever the processing order
+                 'attr': (draw(st.sampled_from([None, None, 'ivar', 'cvar'])) if not attrchain else ('cvar' if any(x['kind'] == 'class' for _m, x in all_defs) else 'ivar')) if kind == 'class' else None}
             defs.append(d)
             all_defs.append((mod, d))
         impl.append({'mod': mod, 'defs': defs})
     # cross-module bases between implementation classes (earlier ones)
     classes = [(m, d) for m, d in all_defs if d['kind'] == 'class']
     for i, (m, d) in enumerate(classes):
-        if i and draw(st.booleans()):
+        if i and (attrchain or draw(st.booleans())):
             bm, bd = classes[draw(st.integers(0, i - 1))]
             d['bases'] = [[bm, bd['name']]]
     exports = []
@@ -63,8 +67,25 @@ def projects(draw: Any, cycles: bool = False, star_consumers: bool = False) -> D
             m, d = draw(st.sampled_from(all_defs))
             how = draw(st.sampled_from(['from-impl', 'from-exporter', 'both', 'modalias', 'pkgalias', 'pkgalias', 'modalias', 'dotted', 'dotted']))
             as_ = draw(st.sampled_from(['base', 'base', 'base', 'ann', 'xref-old', 'xref-new', 'name'] if d['kind'] == 'class' else ['ann', 'xref-old', 'xref-new', 'name']))
-            uses.append({'obj': d['name'], 'from': m, 'how': how, 'as': as_, 'rebind': bool(as_ == 'base' and d['members'] and draw(st.integers(0, 3)) > 0)})
+            uses.append({'obj': d['name'], 'from': m, 'how': how, 'as': as_, 'rebind': bool(as_ == 'base' and d['members'] and draw(st.integers(0, 3)) > 0),
+                         'cvar': bool(as_ == 'base' and (attrchain or draw(st.booleans())))})
         consumers.append({'mod': cm, 'uses': uses})
+    if attrchain:
+        # make the chain matter: a consumer class that overrides t derives from a chain class that is re-exported by the sibling
+        # module api, and reaches it through its defining module (so that it may be registered before the class is moved)
+        chained = [(m, d) for m, d in all_defs if d['kind'] == 'class' and d['bases']]
+        if chained:
+            m, d = draw(st.sampled_from(chained))
+            e = None
+            for x in exports:
+                if x['obj'] == d['name']:
+                    e = x
+            if e is None:
+                e = {'obj': d['name'], 'from': m, 'via': 'api', 'form': 'plain', 'as': d['name'], 'alltype': 'list'}
+                exports.append(e)
+            elif draw(st.booleans()) and e['form'] != 'star':
+                e['via'] = 'api'
+            consumers[0]['uses'].insert(0, {'obj': d['name'], 'from': m, 'how': draw(st.sampled_from(['modalias', 'dotted', 'pkgalias'])), 'as': 'base', 'rebind': False, 'cvar': True})
     extra = {'cycle': cycles and draw(st.booleans()), 'star_consumer': star_consumers and draw(st.booleans()), 'second_root': draw(st.integers(0, 3)) == 0}
     return {'impl': impl, 'exports': exports, 'consumers': consumers, 'extra': extra}
 
@@ -105,6 +126,10 @@ def to_files(proj: Dict[str, Any]) -> Tuple[Dict[str, str], Dict[str, Any]]:
                 for mname in d['members']:
                     lines.append('    def %s(self):' % mname)
                     lines.append('        """ID:%d.%s"""' % (d['id'], mname))
+                if d.get('attr') == 'ivar':
+                    lines += ['    def __init__(self):', '        self.t = 0']
+                elif d.get('attr') == 'cvar':
+                    lines += ['    t = 1']
                 if d.get('nested'):
                     lines += ['    class Inner:', '        """ID:%d.Inner"""' % d['id'], '        def im(self):', '            """ID:%d.Inner.im"""' % d['id'],
                               '        iv = 1', '        """ID:%d.Inner.iv"""' % d['id'], '        class Deep:', '            """ID:%d.Inner.Deep"""' % d['id'],
@@ -179,6 +204,8 @@ def to_files(proj: Dict[str, Any]) -> Tuple[Dict[str, str], Dict[str, Any]]:
                     # rebinding the name of an inherited method by assignment: whether this is documented as a new class
                     # variable must not depend on when the base class became known
                     body += ['    m = staticmethod(len)', '    newvar = 1']
+                if u.get('cvar'):
+                    body += ['    t = 3']
                 checks.append({'type': 'base', 'obj': obj, 'from': frm, 'consumer': 'p.%s.%s' % (cm['mod'], uname), 'how': how})
             elif u['as'] == 'ann':
                 body += ['def %s(x: %s) -> "%s":' % (uname, local, local), '    """consumer function"""']
